@@ -216,6 +216,8 @@ type grpcPlan struct {
 	// RefuseFrom > 0: every connection of the k-th and later gRPC clients (in the order the guns dial) is refused:
 	// the target is up for warm-up and the first instances, down for the instances that come after
 	RefuseFrom int
+	// Untagged >= 0 (grpc/json ammo only): that entry has no "tag" field (the field is optional)
+	Untagged int
 }
 
 func genGRPCPlan(r *R, faults bool) grpcPlan {
@@ -244,6 +246,10 @@ func genGRPCPlan(r *R, faults bool) grpcPlan {
 	}
 	if faults && f.Draw(6) == 0 {
 		p.RefuseFrom = 2 + f.Draw(p.Inst+1)
+	}
+	p.Untagged = -1
+	if !p.Scenario && w.Draw(2) == 0 {
+		p.Untagged = w.Draw(p.Entries)
 	}
 	return p
 }
@@ -296,6 +302,12 @@ func runGRPCPlan(r *R, p grpcPlan) *grpcOutcome {
 	} else {
 		var b strings.Builder
 		for i := 0; i < p.Entries; i++ {
+			if i == p.Untagged {
+				// no tag field: the sample's tag is empty (or the __EMPTY__ marker), never another entry's tag
+				fmt.Fprintf(&b, "{\"call\": \"target.TargetService.Hello\", \"metadata\": {\"marker\": \"m%d\"}, \"payload\": {\"name\": \"n%d\"}}\n", i, i)
+				out.TagOf = append(out.TagOf, "")
+				continue
+			}
 			fmt.Fprintf(&b, "{\"tag\": \"tg%d\", \"call\": \"target.TargetService.Hello\", \"metadata\": {\"marker\": \"m%d\"}, \"payload\": {\"name\": \"n%d\"}}\n", i, i, i)
 			out.TagOf = append(out.TagOf, fmt.Sprintf("tg%d", i))
 		}
@@ -394,7 +406,7 @@ func runGRPCPlan(r *R, p grpcPlan) *grpcOutcome {
 
 func c10GRPC(r *R) {
 	p := genGRPCPlan(r, r.F.Draw(3) == 0)
-	r.Sample(map[string]any{"mode": "grpc", "scenario": p.Scenario, "entries": p.Entries, "passes": p.Passes, "instances": p.Inst, "codes": fmt.Sprint(p.Codes), "slow": fmt.Sprint(p.Slow), "reset": fmt.Sprint(p.Reset), "timeout": p.Timeout.String(), "assertions": fmt.Sprint(p.Assert), "refuse_clients_from": p.RefuseFrom})
+	r.Sample(map[string]any{"mode": "grpc", "scenario": p.Scenario, "entries": p.Entries, "passes": p.Passes, "instances": p.Inst, "codes": fmt.Sprint(p.Codes), "slow": fmt.Sprint(p.Slow), "reset": fmt.Sprint(p.Reset), "timeout": p.Timeout.String(), "assertions": fmt.Sprint(p.Assert), "refuse_clients_from": p.RefuseFrom, "untagged_entry": p.Untagged})
 	r.NonTrivial()
 	out := runGRPCPlan(r, p)
 	if c20Infra(r, out.Res, "grpc") {
@@ -402,7 +414,11 @@ func c10GRPC(r *R) {
 	}
 	byTag := map[string][]recSample{}
 	for _, s := range out.Res.Samples {
-		byTag[s.Tags] = append(byTag[s.Tags], s)
+		t := s.Tags
+		if t == "__EMPTY__" && p.Untagged >= 0 {
+			t = ""
+		}
+		byTag[t] = append(byTag[t], s)
 	}
 	known := map[string]bool{}
 	for i, t := range out.TagOf {
